@@ -284,6 +284,15 @@ def rule_forms(ctx: Ctx):
     f = FD.methods["normalize"]
     ok = Snips(f).solve(["total = sum(self.values())", "{e: p / total for e, p in self.items()}"]) is not None
     ctx.check(ok, "ALG-2", f, f.node, "normalize: every mass divided by the total", "", "normalize changed")
+    # (written after seed C11-c) the operations that compute a new distribution have no short-cut that hands back `self`: a distribution that is
+    # only approximately in the target form (a tolerance test such as is_normalized()) would be returned unchanged
+    for nm in ("normalize", "condition", "marginalize", "joint", "__and__", "__or__", "__mul__"):
+        m_ = FD.methods.get(nm)
+        if m_ is None:
+            continue
+        bad = [r_ for r_ in ast.walk(m_.node) if isinstance(r_, ast.Return) and isinstance(r_.value, ast.Name) and r_.value.id == m_.self_name]
+        ctx.check(not bad, "ALG-2", m_, bad[0] if bad else m_.node, f"{nm}: no path returns the receiver unchanged", "",
+                  f"a path of `{nm}` returns `self` without computing the result: inputs that pass the short-cut's test only approximately are not transformed")
     sm = P.method("SoftmaxDistribution", "__init__")
     ok = Snips(sm).solve(["top = max(scores.values())", "Z = sum([math.exp(s - top) for s in scores.values()])",
                           "{ce: math.exp(cs - top) / Z for ce, cs in scores.items()}"]) is not None
